@@ -27,7 +27,7 @@ CLAIMED = {
     "C07": dict(
         level="proof",
         technique="Lean 4 theorems about shared_attr_info / generate_body / expand_enum + correspondence + every variant printed with the real macro against the documented rule",
-        text="Lean theorems: an enum-level literal mentioning _variant wraps every variant around the variant's own text (wraps_every_variant), the bare {_variant} is the identity, under Pointer the wrapped single field is dereferenced so that `_variant` is the pointer the field holds (wrapped_pointer_field_prints_held_pointer, wrapped_field_deref_iff_pointer), a literal without _variant is used only for unattributed variants, _variant with a specifier and Debug enum-level literals are rejected; model compared with the working tree on generated enums; 120 generated enums are printed variant by variant with the real macro and compared with a reference written with plain format! calls",
+        text="Lean theorems: an enum-level literal mentioning _variant wraps every variant around the variant's own text (wraps_every_variant), the bare {_variant} is the identity, under Pointer the wrapped single field is dereferenced so that `_variant` is the pointer the field holds (wrapped_pointer_field_prints_held_pointer, wrapped_field_deref_iff_pointer), the literal through which a wrapped single field is formatted denotes the derived trait, both in the model (default_placeholder_is_the_derived_trait) and in the table re-read from impl/src/fmt/display.rs on every run, which equals the model's (source_default_placeholders_are_the_model, source_default_placeholders_denote_their_trait, source_attribute_names_distinct), a literal without _variant is used only for unattributed variants, _variant with a specifier and Debug enum-level literals are rejected; model compared with the working tree on generated enums; 120 generated enums are printed variant by variant with the real macro and compared with a reference written with plain format! calls",
         note="Lean kernel; model tied by differential run; convert_case is a parameter; the reference text is produced by std's format! in the same process",
         ref="DESIGN.md §4 C07"),
     "C02": dict(
@@ -51,7 +51,7 @@ CLAIMED = {
     "C12": dict(
         level="proof",
         technique="Lean 4 theorems by induction over variant lists (constants == Rust's discriminant rule; match == inverse of the cast) + expansion correspondence + full 8/16-bit domains with the real macro",
-        text="Lean theorems for every enum layout and every integer: the reconstructed constants `(last explicit) + offset` equal the discriminants of Rust's rule (const_is_discriminant, induction with the (last, inc) invariant), also in the representation type: the offset is cast and added modulo the width, and whenever rustc accepts the enum the constants are the discriminants for every width and number of variants (consts_in_repr_are_discriminants; i8_far_variant_witness is the kernel-checked witness of the pinned tree's defect), try_from(n) = Ok(v) iff v is the field-less variant with discriminant n, otherwise Err (try_from_iff), round trip with the cast, repr detection. The model (repr, constant tokens, arms) is compared with the working-tree expansion on 3000 generated layouts incl. the impl header; 40 enums are run with the real macro over the whole i8/u8/i16/u16 domain (wider reprs: discriminants +-1 and extremes) against `variant as repr`",
+        text="Lean theorems for every enum layout and every integer: the reconstructed constants `(last explicit) + offset` equal the discriminants of Rust's rule (const_is_discriminant, induction with the (last, inc) invariant), also in the representation type: the offset is cast and added modulo the width, and whenever rustc accepts the enum the constants are the discriminants for every width and number of variants (consts_in_repr_are_discriminants; i8_far_variant_witness is the kernel-checked witness of the pinned tree's defect), the integer names ReprInt recognises, re-read from impl/src/utils.rs on every run, are the model's twelve (source_repr_ints_are_the_model), try_from(n) = Ok(v) iff v is the field-less variant with discriminant n, otherwise Err (try_from_iff), round trip with the cast, repr detection. The model (repr, constant tokens, arms) is compared with the working-tree expansion on 3000 generated layouts incl. the impl header; 40 enums are run with the real macro over the whole i8/u8/i16/u16 domain (wider reprs: discriminants +-1 and extremes) against `variant as repr`",
         note="Lean kernel; model tied by differential run; rustc's const evaluation modelled as integer arithmetic; discriminant expressions enter the model as their value (the parenthesisation of the emitted tokens is covered by the token-level correspondence and the behaviour run)",
         ref="DESIGN.md §4 C12"),
     "C13": dict(
